@@ -35,7 +35,7 @@ LEVEL_TEXT = ("Random edit histories (<= 30 steps) over every Atoms/System per-a
               "row after every step with an independent record-per-atom model; aliasing probed by mutating every array/object "
               "handed out by the copying accessors and re-checking operands of extend/atoms_extend at the end of the history.")
 TECHNIQUE = "model-based stateful testing: record-per-atom model, invariants after every step, aliasing probes, refusal atomicity"
-WALL = {'quick': 55, 'thorough': 600}
+WALL = {'quick': 45, 'thorough': 600}
 
 KEY_SCALE = 'C06:atoms_extend:scale-true'
 KEY_WIDTH = 'C06:extend:new-str-prop-width'
